@@ -3,8 +3,11 @@
 package checks
 
 import (
+	"bufio"
 	"context"
+	"crypto/tls"
 	"fmt"
+	"io"
 	"net/http"
 	"time"
 
@@ -40,7 +43,75 @@ func c16Scenarios(tier string) []*explore.Scenario {
 		mode := mode
 		scs = append(scs, &explore.Scenario{Name: "c16/upgrade/" + mode, Bound: bound, Body: func(x *explore.Ctx) { c16Upgrade(x, mode) }})
 	}
+	for _, mode := range []string{"reused", "wrapped", "fresh"} {
+		mode := mode
+		scs = append(scs, &explore.Scenario{Name: "c16/upgrade-over-tls/" + mode, Bound: bound, Body: func(x *explore.Ctx) { c16UpgradeTLS(x, mode) }})
+	}
 	return scs
+}
+
+// c16UpgradeTLS: the hijacked connection is a real *tls.Conn (net/http serving wss) over a
+// logged pipe; a TLS client completes the handshake and, depending on the mode, sends a frame
+// early so that the hijacked reader has buffered data.
+func c16UpgradeTLS(x *explore.Ctx, mode string) {
+	pki := netsim.TestPKI()
+	a, b := netsim.NewPipe("upg")
+	logged := &netsim.Logged{Inner: b, Name: "hijacked"}
+	srv := tls.Server(logged, &tls.Config{Certificates: []tls.Certificate{pki.Leaf("server.example", false)}, SessionTicketsDisabled: true})
+	early := wsref.Encode(wsref.Frame{Fin: true, Opcode: wsref.OpText, Masked: true, Key: maskKeys[3], Payload: []byte("early")})
+	done := make(chan struct{})
+	go func() {
+		defer close(done)
+		ct := tls.Client(a, &tls.Config{RootCAs: pki.Roots, ServerName: "server.example"})
+		if err := ct.Handshake(); err != nil {
+			a.Close()
+			return
+		}
+		if mode != "fresh" {
+			ct.Write(early)
+		}
+		io.Copy(io.Discard, ct)
+	}()
+	if err := srv.Handshake(); err != nil {
+		panic("c16: TLS handshake of the harness failed: " + err.Error())
+	}
+	rbs, hs := 0, 4096
+	if mode != "reused" {
+		rbs = 1024
+	}
+	br := bufio.NewReaderSize(srv, hs)
+	if mode != "fresh" {
+		br.Peek(1)
+	}
+	w := &fakeRW{hdr: http.Header{}}
+	w.BR, w.BW = br, bufio.NewWriterSize(srv, 4096)
+	w.hijackConn = srv
+	hto := x.Choose(2, "HandshakeTimeout")
+	u := &websocket.Upgrader{ReadBufferSize: rbs}
+	if hto == 1 {
+		u.HandshakeTimeout = time.Hour
+	}
+	preOps := len(logged.Snapshot())
+	hdr := http.Header{"Connection": {"Upgrade"}, "Upgrade": {"websocket"}, "Sec-Websocket-Version": {"13"}, "Sec-Websocket-Key": {b64n(16)}}
+	req := &http.Request{Method: "GET", Header: hdr, Host: "server.example", Proto: "HTTP/1.1", ProtoMajor: 1, ProtoMinor: 1}
+	conn, err := u.Upgrade(w, req, nil)
+	x.NonTrivial()
+	var opsS []string
+	for _, o := range logged.Snapshot()[preOps:] {
+		opsS = append(opsS, o.String())
+	}
+	x.Obs("hto=%d -> conn=%v err=%v ops=%v", hto, conn != nil, err != nil, opsS)
+	key := func(what string) string { return fmt.Sprintf("C16:upgrade-tls-%s:%s", what, mode) }
+	x.Check(conn != nil && err == nil, key("good-upgrade-failed"), "fault-free Upgrade over TLS failed: %v", err)
+	x.Check(!logged.IsClosed(), key("closed-on-success"), "connection closed although Upgrade succeeded")
+	x.Check(logged.WDL.IsZero() && logged.RDL.IsZero(), key("deadline-left-armed"), "Upgrade over TLS succeeded but a deadline is still armed on the network connection: read %v write %v (HandshakeTimeout=%d)", logged.RDL, logged.WDL, hto)
+	if mode != "fresh" {
+		t, p, rerr := conn.ReadMessage()
+		x.Check(rerr == nil && t == websocket.TextMessage && string(p) == "early", key("early-frame-lost"), "frame sent with the handshake: %v %q", rerr, p)
+	}
+	srv.Close()
+	a.Close()
+	<-done
 }
 
 var c16Neg = []struct {
